@@ -124,6 +124,39 @@ CHECKS = {
         note="Not decided by the specification (numeric clauses, evaluated by the harness only): 'sums to 1 up to O(1/width)' and gauss_quant's accuracy.",
         technique="TLA+ specification evaluated exhaustively by TLC (constant level) + replay of exported cases",
         design="6 C20"),
+    "C11": dict(
+        text="ReadSignal.tla is the complete decision table of read_signal (source kind x name shape x force_as -> reader or exception "
+             "class) by the numbered rules of its docstring; TLC evaluates all rows and checks totality and the ValueError / IOError "
+             "clauses.  Binding (spec -> code): every row is replayed on the real function with a real file produced by the container's "
+             "own writer that the specified reader must decode, from a (possibly misleading) name and from a binary stream, shapes "
+             "(0,), (1,), (n,), (n,2), dtype casts (float32, int32, int64), keys; results compared bit for bit; error rows by class, "
+             "twice (the table has no memory).  wds_read_signal on every file, its truncations and random bytes.",
+        note="Kaldi table / stream readers are covered only by their dispatch and error rows.  Container fidelity belongs to the "
+             "container library; lossy ogg is not compared.  SciPy absent: .wav uses the wave module.",
+        technique="TLA+ decision table evaluated by TLC (constant level) + replay of every exported row on the real code",
+        design="6 C11"),
+    "C12": dict(
+        text="SphereRead.tla: the read loop of copy_samples with the real read size over byte intervals; TLC checks for frame sizes "
+             "1..12 and promised / present sizes around 0, one frame and 1-3 read sizes that the copied intervals are exactly the first "
+             "min(promised, present) frames, in order, with a warning iff short, and termination; the pre-repair loop is refuted "
+             "(canary).  G711.tla derives both expansion tables from the recommendation's bit-field formulas.  Binding: every exported "
+             "(F, promised, present) row is materialised as a real file (PCM both byte orders, mu-law, A-law, 1024 / 2048-byte "
+             "headers), read from a path and a stream and compared in value, shape, dtype and warning; the tables entry by entry and "
+             "end to end; raw codes for 1-byte dtypes; bad headers.",
+        note="Header clause checked as stated (NIST_1A magic, at least 1024 bytes); other malformed headers are not judged.",
+        technique="TLA+ model checking (TLC) of the read loop + replay of exported cases as real files",
+        design="6 C12"),
+    "C13": dict(
+        text="Shorten.tla holds an encoder written from the format and a decoder transcribed from the code over one bit string.  TLC: "
+             "exhaustive tiny instances (every command, versions 1-2, running mean, bit shift, block-size change, QLPC) and random "
+             "simulation of the general space check decode(encode(x)) = x, every proper prefix runs out of input, unknown version / "
+             "command are errors, termination; a floor-division decoder is refuted (canary).  Binding (spec -> code): every exported "
+             "behaviour is packed into a SPHERE file and decoded by the real code (path and stream); word-truncated files, unknown "
+             "version bytes and an out-of-format command must raise IOError; the six sph2pipe vectors against their WAVs.",
+        note="Not decided: mu-law with a bit shift > 0 (no independent definition of shorten's derived table offline).  QLPC only in "
+             "blocks at least as long as the predictor history, block size only shrinks (the property's own preconditions).",
+        technique="TLA+ model checking + simulation (TLC) of an encoder/decoder pair; exported behaviours replayed as real files",
+        design="6 C13"),
 }
 
 NOT_APPLICABLE = {
